@@ -515,6 +515,8 @@ func c11Oracle(line, out string) string {
 		}
 		fail, _ := strconv.Atoi(spec[4:])
 		stream := expectStream(t.resp[i])
+		// all messages of the response received by the failing call: those before the failing package
+		// and those in the rest of the response, which the call consumes up to the final DONE
 		var nrs []string
 		n := 0
 		hit := false
@@ -526,7 +528,6 @@ func c11Oracle(line, out string) string {
 			n++
 			if n == fail {
 				hit = true
-				break
 			}
 		}
 		if !hit {
